@@ -13,6 +13,7 @@ import Driver.Common
 import KmipModel.Model.ValSyntax
 import KmipModel.Gen.Schema
 import KmipModel.Lemmas.PlanRoundtrip
+import KmipModel.Lemmas.PlanFixpoint
 import KmipModel.Pinned.Introduced
 import KmipModel.Pinned.AttrSpec
 open Kmip
@@ -61,6 +62,27 @@ def handlePlan (cmd arg : String) : Option String :=
       | some dn, some tg, some v =>
         let (wf, ir) := conformsX Gen.schema dn tg v
         if wf && ir then "ok 1" else s!"ok 0 wf={wf} inrange={ir}"
+      | _, _, _ => "bad-op"
+    | _ => "bad-op"
+  | "plan.side" => some <|
+    -- the side conditions of `C18.typed_reencode_fixpoint_partial` on an input, one flag each (cf. `C18.typedSideB`,
+    -- whose range check is conservative on big integers; this one uses the exact executable `InRange`)
+    match arg.splitOn " " with
+    | [d, t, h] =>
+      match d.toNat?, t.toNat?, bytesOfHex h with
+      | some dn, some tg, some bs =>
+        match unmarshal Gen.schema dn tg bs with
+        | .ok v =>
+          let k := (Gen.schema.dyn dn).kind
+          let fuel := decide (v.edepth ≤ marshalFuel)
+          let union := goodU Gen.schema k v
+          let tagok := Gen.schema.kindTagOK k (topTag Gen.schema dn tg)
+          let range := match encK Gen.schema marshalFuel k (topTag Gen.schema dn tg) v none with
+            | .ok (items, _) => allInRangeX items
+            | _ => false
+          if fuel && union && tagok && range then "ok all-hold"
+          else s!"ok not-all fuel={fuel} union={union} tag={tagok} range={range}"
+        | _ => "rejected"
       | _, _, _ => "bad-op"
     | _ => "bad-op"
   | "plan.dec" => some <|
